@@ -288,6 +288,9 @@ Definition rf_pair (slot : list val) (x : val) : option (list val * list val) :=
 (* filter: keep x when x <= v, v read through #{g} sv *)
 Definition rf_le (slot : list val) (x : val) : option (list val * list val) :=
   match slot with v :: _ => Some (slot, if vnum x <=? vnum v then [x] else []) | [] => None end.
+(* a Vec handoff referenced as a whole: emit (x, buffer length) *)
+Definition rf_len (slot : list val) (x : val) : option (list val * list val) :=
+  Some (slot, [VP x (VN (N.of_nat (length slot)))]).
 (* Optional slots: &Option<T>, no unwrap of the slot itself *)
 Definition rf_opt_rd (slot : list val) (x : val) : option (list val * list val) :=
   Some (slot, [VP x (match slot with v :: _ => v | [] => VN 99 end)]).
